@@ -366,12 +366,6 @@ def oracle_run_at(line, out):
             if hdr is None:
                 return (i, "served without an Authorization header")
             user = unhx(res.split(":")[1])
-            if rule.scheme == "b":
-                v = check_basic(s, rule, hdr, user)
-            else:
-                v = check_digest(s, rule, (f[1].encode(), target, f[5] != "0"), hdr, user, epoch)
-            if v:
-                return (i, v)
             if twin_outs is not None and len(twin_outs) == len(outs):
                 tres = twin_outs[i].split("|")[0]
                 if tres.split(":")[0] != "go":
@@ -379,6 +373,12 @@ def oracle_run_at(line, out):
                                "(refused with %s when auth.cache is off)" % tres.split(":")[0])
                 if tres.split(":")[1] != res.split(":")[1]:
                     return (i, "the credential cache changes the authenticated user (REMOTE_USER)")
+            if rule.scheme == "b":
+                v = check_basic(s, rule, hdr, user)
+            else:
+                v = check_digest(s, rule, (f[1].encode(), target, f[5] != "0"), hdr, user, epoch)
+            if v:
+                return (i, v)
         elif kind not in ("401", "400", "500"):
             return (i, "refusal is neither 401 nor 400")
         elif kind == "500" and s.backend != "none" and not (s.backend == "htpasswd" and rule.scheme == "d"):
@@ -829,6 +829,28 @@ def directed_scenarios():
     return out
 
 
+def finding_scenarios():
+    """minimal scenarios of the defects located while building the check (kept first, so that a
+    regression is reported with its smallest input)"""
+    out = []
+    ep = 1700000000
+    # base64: a stop at an invalid character must fail the decode (Basic "user:pw" + "!")
+    out.append(make_line([Rule(b"/priv", "b", b"R1")],
+                         [q_op("GET", b"/priv/x", b"/priv/x", b"Basic " + base64.b64encode(b"alice:wonder") + b"!")],
+                         "plain", b"alice:wonder\n", "-"))
+    # cache: an entry keyed by user name must not serve a userhash=true request
+    n0 = ref_nonce(ep, 7, None)
+    ha1 = md5hex(b"bob:R2:builder")
+    resp = ref_response(ha1, False, n0, b"00000001", b"abc", b"auth", b"GET", b"/dig/x")
+    h = lambda name, extra: (b'Digest username="' + name + b'", realm="R2", nonce="' + n0 + b'", uri="/dig/x", qop=auth, '
+                             b'nc=00000001, cnonce="abc", response="' + resp + b'"' + extra)
+    out.append(make_line([Rule(b"/dig", "d", b"R2", require=b"user=BoB")],
+                         [q_op("GET", b"/dig/x", b"/dig/x", h(b"bob", b"")),
+                          q_op("GET", b"/dig/x", b"/dig/x", h(b"BoB", b", userhash=true"))],
+                         "plain", b"bob:builder\n", "600", epoch=ep))
+    return out
+
+
 def overflow_scenarios():
     """nonce timestamps with bit 63 set (the C subtracts them from the clock: signed overflow)"""
     F = b"alice:wonder\n"
@@ -860,7 +882,7 @@ def probe_lines(ctx):
     for n in range(0, n_b64 + 1):
         for t in itertools.product(B64_ALPHA, repeat=n):
             lines.append("b64 " + hx(b"".join(t)))
-    nrand = 20000 if ctx.quick else 200000
+    nrand = 60000 if ctx.quick else 400000
     keys = [b"username", b"realm", b"nonce", b"uri", b"algorithm", b"qop", b"cnonce", b"nc", b"response", b"username*",
             b"userhash", b"opaque", b"user", b"Nonce"]
     for _ in range(nrand):
@@ -900,8 +922,8 @@ def probe_lines(ctx):
 def gen(ctx):
     import collections
     stats = collections.Counter()
-    lines = directed_scenarios()
-    n = 2500 if ctx.quick else 30000
+    lines = finding_scenarios() + directed_scenarios()
+    n = 12000 if ctx.quick else 150000
     for _ in range(n):
         w = World(ctx.rng, ctx.quick)
         lines.append(w.scenario(ctx.rng.randint(4, 22), stats))
